@@ -520,19 +520,23 @@ def tree_group_family(seed, n, maxlen=4, budget=6000, kinds=("alt", "adj", "acmd
     """subcommands whose own level has choices / adjacent groups / adjacent subcommands (TreeLine.tla)"""
     rnd = random.Random(seed)
     out = []
+    tries = 0
     while len(out) < n:
         i = len(out)
+        tries += 1
         subs = []
         for j in range(1 + i % 2):
             fam = {"alt": alt_family, "adj": adj_family, "acmd": acmd_family}[kinds[(i + j) % len(kinds)]]
-            subs.append(fam(seed * 100 + i * 7 + j, 3, maxlen=maxlen, budget=budget)[rnd.randrange(3)])
+            # the families cycle through their wrappers (bare/optional/many/some): take a different one each time
+            subs.append(fam(seed * 100 + tries * 7 + j, 4, maxlen=maxlen, budget=budget)[(i // len(kinds) + j) % 4])
+        # what precedes the command name occupies 0, 1 or 2 items of the line (`--rootarg=1` is two items for bpaf)
         root_named = [[], [sw("r1", "-R", "--rootsw")], [ar("r2", "many", "str", "--rootarg")],
-                      [sw("r1", "-R"), ar("r2", "opt", "int", "--rootarg")]][rnd.randrange(4)]
+                      [sw("r1", "-R"), ar("r2", "opt", "int", "--rootarg")]][(i + tries) % 4]
         names = [["run"], ["go", "g2"]]
         cmds = [cmd(names[j], sub) for j, sub in enumerate(subs)]
         lvl = level(root_named, cmdtail(cmds, optional=(i % 5 == 4)), version=(i % 4 == 3))
         d = mkdef(f"tg{seed}_{i}", lvl, maxlen=maxlen, extras=rnd.choice([("help",), ("unk",), ("dd",), ("help", "unk")]),
-                  spells=("sep",), words=("1",))
+                  spells=("sep", "eq") if i % 2 else ("eq",), words=("1",))
         d["empty"] = level([], NOTAIL)
         flags, args = set(), set()
         for l in [d] + subs:
